@@ -196,7 +196,15 @@ func c18Value(r gen.R, k fkind, f lfield) (reflect.Value, rm.Val) {
 		x := r.U8()
 		return wrap(x, rm.UVal(rm.U8, uint64(x)))
 	case "fixed-byte":
-		return wrap(uint8(f.fixed), rm.UVal(rm.U8, uint64(f.fixed)))
+		// the tag decides what is on the wire, whatever the struct field holds (round 10: the field left at zero, as the shipped
+		// messages leave their MsgType, or holding any other value; seeded C18-W: zero-valued integers skipped on encode)
+		x := uint8(f.fixed)
+		if r.Chance(0.4) {
+			x = 0
+		} else if r.Chance(0.25) {
+			x = r.U8()
+		}
+		return wrap(x, rm.UVal(rm.U8, uint64(f.fixed)))
 	case "u16":
 		x := uint16(r.Pick(65536))
 		if r.Chance(0.2) {
